@@ -31,7 +31,7 @@ GRACE_S = 60
 
 SIZES = {
     'quick': dict(np=1400, fn=140, str=5000, alg=2000, unitpy=1000, useq=1200, np_steps=14, fn_steps=11),
-    'thorough': dict(np=30000, fn=2800, str=100000, alg=30000, unitpy=20000, useq=20000, np_steps=16, fn_steps=12),
+    'thorough': dict(np=30000, fn=2200, str=80000, alg=30000, unitpy=20000, useq=20000, np_steps=16, fn_steps=12),
 }
 CHUNK = dict(np=100, fn=10, str=500, alg=250, unitpy=100, useq=150)
 
@@ -78,7 +78,7 @@ def run_program(e, res, seed, fam, index, nsteps, upto=None):
         res.note(f'fn context: {type(ex).__name__}: {ex}')
         return case
     G = Gen(e, mon, rng, ctx)
-    G.evalprob = .6
+    G.evalprob = .6 if ctx is None or ctx.d < 3 else .35     # compiling a 3-D evaluation costs ~10x a 2-D one
     observe = ctx.observe(G) if ctx else None
     if ctx:
         case['mesh'] = dict(d=ctx.d, kind=ctx.kind, where=ctx.where)
@@ -146,6 +146,8 @@ def run_program(e, res, seed, fam, index, nsteps, upto=None):
                     if prev is None:
                         break
                     if isinstance(prev, Opd):
+                        inc = dict(grad=1, div=1, curl=1, surfgrad=1, laplace=2, curvature=2, normal=1, jacobian=1).get(c.key.split('.')[-1], 0) if c.key.startswith('function.') else 0
+                        prev.dlevel = max([o.dlevel for o in c.opds()] + [0]) + inc
                         if c.key.startswith('function.') and c.key.split('.')[1] in ('grad', 'div', 'curl', 'laplace', 'surfgrad', 'derivative', 'linearize', 'replace_arguments', 'jump', 'opposite', 'scatter', 'kronecker'):
                             prev.role = 'derived'
                         outs.append(prev)
